@@ -53,12 +53,16 @@ fn tracer<R: Residual + 'static>(m: Arc<R>) -> Tracer {
     Box::new(move |s| trace::trace_residual(m.as_ref(), s))
 }
 fn evalf<R: Residual + 'static>(m: Arc<R>) -> Evalf {
-    Box::new(move |s| *trace::eval_f64(m.as_ref(), s).last().unwrap())
+    // a panic of the code under test (e.g. an index out of bounds for a sub-model) is a result (NaN), not a crash of the check
+    Box::new(move |s| std::panic::catch_unwind(std::panic::AssertUnwindSafe(|| *trace::eval_f64(m.as_ref(), s).last().unwrap())).unwrap_or(f64::NAN))
 }
 fn contribs<R: Residual + 'static>(m: Arc<R>) -> Contribs {
     Box::new(move |s| {
-        let sh = feos_core::StateHD::new(s.t, s.v, Array1::from_vec(s.n.clone()));
-        m.residual_helmholtz_energy_contributions(&sh)
+        std::panic::catch_unwind(std::panic::AssertUnwindSafe(|| {
+            let sh = feos_core::StateHD::new(s.t, s.v, Array1::from_vec(s.n.clone()));
+            m.residual_helmholtz_energy_contributions(&sh)
+        }))
+        .unwrap_or_else(|_| vec![("(panic)".to_string(), f64::NAN)])
     })
 }
 fn maxrho<R: Residual + 'static>(m: Arc<R>) -> MaxRho {
